@@ -124,7 +124,15 @@ func VerifC14Handlers(m int, h int, backend int) {
 		}
 	}
 	id := idm[vrf.Fork(vrf.Choose("id", len(idm)))]
-	vars := map[string]string{"name": name, "id": id, "num": "0"}
+	num := "0"
+	if h == 9 {
+		// attachment number (any non-empty path segment reaches the handler): in range there is
+		// none (the messages have no attachments), so every spelling - negative, not a number,
+		// too large - must be answered with an error status
+		numMenu := []string{"0", "1", "-1", "x", "4294967296"}
+		num = numMenu[vrf.Fork(vrf.Choose("num", len(numMenu)))]
+	}
+	vars := map[string]string{"name": name, "id": id, "num": num}
 	canon, cerr := ap.ExtractMailbox(name)
 	isBox := cerr == nil && canon == "box"
 	// does the addressed message exist?
@@ -279,7 +287,7 @@ func VerifC14Handlers(m int, h int, backend int) {
 	case 9: // web UI attachment view
 		w = serve(webui.MailboxViewAttach, mgr, vars, nil)
 		if cerr == nil {
-			if !exists {
+			if !exists && (num == "0" || num == "1") {
 				vrf.Assert("attach-missing-404", w.Code() == 404)
 			} else {
 				vrf.Assert("attach-out-of-range-is-error-not-panic", w.Code() >= 400)
